@@ -73,11 +73,13 @@ fn random(a: &Args) {
     let (mut nsys, mut nev, mut ndisp, mut max_held, mut releases, mut stalls, mut npan) = (0, 0, 0, 0, 0, 0, 0);
     let mut samples = Vec::new();
     let mut prev: Option<(shredh::record::Recorded, shred::World)> = None;
+    let mut nz = 0usize;
     // --boundary: the programs of prog::gen_boundary after the random ones
     let nb = if a.flag("boundary") { (0..).take_while(|i| shredh::prog::gen_boundary(*i, &mut StdRng::seed_from_u64(0)).is_some()).count() } else { 0 };
     for k in 0..count + nb {
         shredh::unwind::set(rng.gen_bool(a.num("punwind", 0.08)));
         shredh::record::set_early_pool(rng.gen_bool(0.3));
+        shredh::build::set_zst(if rng.gen_bool(0.25) { 0.5 } else { 0.0 });
         shredh::build::set_noise(if rng.gen_bool(0.2) { 0.06 } else { 0.0 });
         let mut cfg = base.clone();
         cfg.n_res = rng.gen_range(2..=base.n_res.max(2));
@@ -170,6 +172,7 @@ fn random(a: &Args) {
             ndisp += 1;
         }
         nsys += prog.count_systems();
+        nz += r.rec.zslots.len();
         if samples.len() < 2 {
             samples.push(serde_json::to_value(&prog).unwrap());
         }
@@ -194,7 +197,7 @@ fn random(a: &Args) {
     w.flush().unwrap();
     println!(
         "{}",
-        json!({"programs":count + nb,"systems":nsys,"events":nev,"dispatches":ndisp,"max_held":max_held,
+        json!({"programs":count + nb,"systems":nsys,"zero_sized_systems":nz,"events":nev,"dispatches":ndisp,"max_held":max_held,
                "releases":releases,"stalls":stalls,"panicking_dispatches":npan,"samples":samples})
     );
 }
@@ -281,6 +284,7 @@ fn lifecycle_cmd(a: &Args) {
     for k in 0..count {
         shredh::unwind::set(rng.gen_bool(a.num("punwind", 0.12)));
         shredh::record::set_early_pool(rng.gen_bool(0.3));
+        shredh::build::set_zst(if rng.gen_bool(0.25) { 0.5 } else { 0.0 });
         shredh::build::set_noise(if rng.gen_bool(0.2) { 0.06 } else { 0.0 });
         let mut cfg = base.clone();
         cfg.n_res = rng.gen_range(2..=base.n_res.max(2));
@@ -351,6 +355,8 @@ fn async_cmd(a: &Args) {
     for k in 0..count {
         shredh::unwind::set(rng.gen_bool(a.num("punwind", 0.12)));
         shredh::record::set_early_pool(rng.gen_bool(0.3));
+        let zst = if rng.gen_bool(0.25) { 0.5 } else { 0.0 };
+        shredh::build::set_zst(zst);
         let noise = if rng.gen_bool(0.2) { 0.06 } else { 0.0 };
         shredh::build::set_noise(noise);
         let mut cfg = base.clone();
@@ -393,7 +399,7 @@ fn async_cmd(a: &Args) {
         // now and then the whole session (build_async, every call) is driven from a worker of the dispatcher's OWN
         // pool (which then needs a second worker for the background job)
         let on_worker = p.current_num_threads() >= 2 && rng.gen_bool(a.num("ponworker", 0.15));
-        let flags = (shredh::unwind::active(), shredh::record::early_pool(), noise);
+        let flags = (shredh::unwind::active(), shredh::record::early_pool(), noise, zst);
         let (ppanic, quiet_us, hold_ms, setuplog): (f64, u64, u64, bool) = (a.num("ppanic", 0.0), a.num("quiet-us", 300), a.num("hold-ms", 3), a.flag("setuplog"));
         let mut session = |rng: &mut StdRng| -> Vec<serde_json::Value> {
             let mut s = record_async(&prog, Variant::identity(&res), k + 1, p.clone());
@@ -431,6 +437,7 @@ fn async_cmd(a: &Args) {
                 shredh::unwind::set(flags.0);
                 shredh::record::set_early_pool(flags.1);
                 shredh::build::set_noise(flags.2);
+                shredh::build::set_zst(flags.3);
                 session(rr)
             })
         } else {
